@@ -200,6 +200,69 @@ def run(C, R):
     probes.run(C, R)
 
 
+def _subst(t, sub):
+    """substitute type parameters of a serialized type tree"""
+    if isinstance(t, list):
+        return [_subst(x, sub) for x in t]
+    if not isinstance(t, dict):
+        return t
+    if t.get('k') == 'param' and t.get('name') in sub:
+        return sub[t['name']]
+    out = {k: _subst(v, sub) if k in ('ty', 'args', 'tys') else v for k, v in t.items()}
+    return out
+
+
+def _field_adts(F, adt, seen=None):
+    """ADT paths that occur in the (transitive) field types of a local ADT"""
+    seen = seen if seen is not None else set()
+    a = F.adts.get(adt)
+    if a is None or adt in seen:
+        return seen
+    seen.add(adt)
+    from facts import ty_adt_paths
+    for v in a['variants']:
+        for f in v['fields']:
+            for p in ty_adt_paths(f['ty']):
+                if p in F.adts:
+                    _field_adts(F, p, seen)
+    return seen
+
+
+def _casts_of_callees(F, fn, ret_adts, casts, depth):
+    """unsizing-to-dyn casts made in the local constructors `fn` forwards to, each with the substitution that
+    expresses the callee's type parameters in the caller's terms.  -> [(cast rvalue, subst, callee path)]"""
+    out = []
+    if depth > 3:
+        return out
+    for b in fn['blocks']:
+        t = b['term']
+        if b['cleanup'] or t['k'] != 'call' or 'fn' not in t['func']:
+            continue
+        res = t['func']['fn'].get('resolved') or {}
+        if not res.get('local'):
+            continue
+        callee = F.fn(res['path'])
+        if callee is None:
+            continue
+        dt = callee['locals'][0]['ty']
+        if dt.get('k') != 'adt' or dt['path'] not in ret_adts:
+            continue
+        names = callee.get('generics')
+        if names is None or 'gargs' not in res or len(names) != len(res['gargs']):
+            raise CheckerError('anchor=L2e: cannot map the type parameters of %s at its call in %s'
+                               % (res['path'], fn['path']))
+        sub = dict(zip(names, res['gargs']))
+        own = [(rv, sub, callee['path']) for cfn, cs, rv in casts if cfn['path'] == callee['path']]
+        if own:
+            out += own
+        else:
+            for rv, sub2, cp in _casts_of_callees(F, callee, ret_adts, casts, depth + 1):
+                # compose: callee-of-callee params -> callee terms -> caller terms
+                sub3 = {k: _subst(v, sub) for k, v in (sub2 or {}).items()}
+                out.append((rv, sub3, cp))
+    return out
+
+
 def l2e(C, R, F, D, cfg, dyn_impls):
     """type-erased futures: for every unsizing cast into a `dyn <Access trait>` pointer made where
     such a future is constructed, the source type must be Sync (borrowed) / Send+Sync (Arc) under
@@ -241,13 +304,18 @@ def l2e(C, R, F, D, cfg, dyn_impls):
         # every construction site: which type goes behind the dyn?
         for fn, s in sites:
             n_sites += 1
-            srcs = [rv for cfn, cs, rv in casts if cfn['path'] == fn['path']]
+            srcs = [(rv, None, fn['path']) for cfn, cs, rv in casts if cfn['path'] == fn['path']]
             if not srcs:
-                raise CheckerError('anchor=L2e: no unsizing cast found in constructor %s of %s' % (fn['path'], fname))
+                # the pointer is erased in a constructor this one forwards to: follow resolved local callees
+                # that return one of the future's (transitive) field types
+                srcs = _casts_of_callees(F, fn, _field_adts(F, fut), casts, 0)
+            if not srcs:
+                raise CheckerError('anchor=L2e: no unsizing cast found in constructor %s of %s (nor in the '
+                                   'constructors it forwards to)' % (fn['path'], fname))
             agg = s['rv']
             g = agg.get('gargs', [])
-            for rv in srcs:
-                src = rv['from_ty']
+            for rv, sub, cast_fn in srcs:
+                src = rv['from_ty'] if sub is None else _subst(rv['from_ty'], sub)
                 ptr_kind = 'Arc' if src.get('k') == 'adt' and src['path'] == 'std::sync::Arc' else '&'
                 inner = src['args'][0] if ptr_kind == 'Arc' else src.get('ty')
                 if inner is None or inner.get('k') != 'adt':
